@@ -666,7 +666,7 @@ class FwdCluster:
                 while i + 7 <= len(rr):
                     lid, start, tot, exp, locked, aoft, st = rr[i:i + 7]
                     i += 7
-                    holds.append({"lid": id_of(bytes.fromhex(lid.decode())), "depth": int(locked), "aof": 1 if int(st) & 0x08 else 0})
+                    holds.append({"lid": id_of(bytes.fromhex(lid.decode())), "depth": int(locked), "aof": 1 if int(st) & 0x08 else 0, "exp": int(exp)})
                     if i < len(rr) and not rc._looks_like_lockid(rr, i):
                         val = rr[i].hex()
                         i += 1
@@ -733,6 +733,7 @@ class SeqRunner:
             d = dict(d)
             d["e"] = "reply"
             d["conn"] = conn.cid
+            d["ts"] = int(time.time())
             q = conn.open.pop(d["rid"], None)
             self.last_res[d["rid"]] = d["res"]
             self.emit(d)
@@ -814,7 +815,7 @@ class SeqRunner:
             ev = {"e": "req", "id": rid, "conn": conn.cid, "node": conn.node, "where": conn.where, "proto": conn.proto, "cmd": q["cmd"], "db": 0,
                   "key": q["key"], "lid": 0 if q.get("nolid") else q.get("lid", 0), "flag": q.get("flag", 0), "tf": q.get("tf", 0), "to": q.get("to", 0), "ef": q.get("ef", 0),
                   "ex": q.get("ex", 0), "cnt": q.get("cnt", 0), "rc": q.get("rc", 0), "data": (q.get("data") or b"").hex(), "val": q.get("val", ""),
-                  "first": conn.proto == "text" and conn.nsent == 0, "role": role[conn.where], "tap": True}
+                  "first": conn.proto == "text" and conn.nsent == 0, "role": role[conn.where], "tap": True, "ts": int(time.time())}
             if conn.proto == "text":
                 ev["len"] = len(resp_encode(conn.text_args(q)))
             self.emit(ev)
@@ -1064,7 +1065,7 @@ class ReplsetRunner:
                 while i + 7 <= len(rr):
                     lid, start, tot, exp, locked, aoft, st = rr[i:i + 7]
                     i += 7
-                    holds.append({"lid": id_of(bytes.fromhex(lid.decode())), "depth": int(locked), "aof": 1 if int(st) & 0x08 else 0})
+                    holds.append({"lid": id_of(bytes.fromhex(lid.decode())), "depth": int(locked), "aof": 1 if int(st) & 0x08 else 0, "exp": int(exp)})
                     if i < len(rr) and not rc._looks_like_lockid(rr, i):
                         i += 1
             out.append({"key": k, "holds": sorted(holds, key=lambda h: str(h["lid"])), "val": ""})
@@ -1090,7 +1091,7 @@ class ReplsetRunner:
                 self.emit({"e": "conn", "conn": cid, "node": c.node, "proto": cd["proto"], "where": cd["node"]})
             def record(conn, reps):
                 for d in reps:
-                    d = dict(d); d["e"] = "reply"; d["conn"] = conn.cid
+                    d = dict(d); d["e"] = "reply"; d["conn"] = conn.cid; d["ts"] = int(time.time())
                     conn.open.pop(d["rid"], None)
                     pending.discard((conn.cid, d["rid"]))
                     self.emit(d)
@@ -1110,7 +1111,7 @@ class ReplsetRunner:
                     self.emit({"e": "req", "id": rid, "conn": conn.cid, "node": conn.node, "where": conn.where, "proto": conn.proto, "cmd": q["cmd"], "db": 0,
                                "key": q["key"], "lid": q.get("lid", 0), "flag": q.get("flag", 0), "tf": q.get("tf", 0), "to": q.get("to", 0), "ef": q.get("ef", 0),
                                "ex": q.get("ex", 0), "cnt": q.get("cnt", 0), "rc": q.get("rc", 0), "data": "", "val": "", "first": conn.proto == "text" and conn.nsent == 0,
-                               "role": roles[conn.node], "tap": False, "len": len(resp_encode(conn.text_args(q))) if conn.proto == "text" else 0})
+                               "role": roles[conn.node], "tap": False, "ts": int(time.time()), "len": len(resp_encode(conn.text_args(q))) if conn.proto == "text" else 0})
                     conn.send(rid, q)
                     pending.add((conn.cid, rid))
                     end = time.time() + (0.03 if st.get("expect_pending") else 3.0)
@@ -1135,7 +1136,7 @@ class ReplsetRunner:
                         q = dict(s2["q"]); rid = self.next_rid()
                         self.emit({"e": "req", "id": rid, "conn": conn.cid, "node": conn.node, "where": conn.where, "proto": conn.proto, "cmd": q["cmd"], "db": 0,
                                    "key": q["key"], "lid": q.get("lid", 0), "flag": 0, "tf": q.get("tf", 0), "to": q.get("to", 0), "ef": q.get("ef", 0),
-                                   "ex": q.get("ex", 0), "cnt": 0, "rc": 0, "data": "", "val": "", "first": False, "role": roles[conn.node], "tap": False, "len": 0})
+                                   "ex": q.get("ex", 0), "cnt": 0, "rc": 0, "data": "", "val": "", "first": False, "role": roles[conn.node], "tap": False, "ts": int(time.time()), "len": 0})
                         conn.send(rid, q)
                         pending.add((conn.cid, rid))
                     # (the member that stepped down abstains; should it be elected again all the same, the history is still valid)
